@@ -24,6 +24,7 @@ func init() {
 		},
 		Run: runC33,
 		Controls: []Control{
+			{Name: "done-closed-on-every-stop", File: "protocols/isis/server/net_ifa.go", Old: "\tif nifa.ethernetInterface != nil {\n\t\tclose(nifa.done)\n\t\tnifa.ethernetInterface.Close()\n\t}\n", New: "\tclose(nifa.done)\n\tif nifa.ethernetInterface != nil {\n\t\tnifa.ethernetInterface.Close()\n\t}\n", Expect: "restart-recreates-consumed"},
 			{Name: "psnp-tick-on-down-interface", File: "protocols/isis/server/lsdb.go", Old: "\t\teth := ifa.ethernetInterface\n\t\tif eth == nil {\n\t\t\tcontinue\n\t\t}\n\n\t\tlspdus := l._getLSPWithSSNSet(ifa)\n\t\tfor _, psnp := range packet.NewPSNPs(srcID, lspdus, eth.GetMTU()) {", New: "\t\tlspdus := l._getLSPWithSSNSet(ifa)\n\t\tfor _, psnp := range packet.NewPSNPs(srcID, lspdus, ifa.ethernetInterface.GetMTU()) {", Expect: "link-state-handle-guarded"},
 			{Name: "lsp-origination-before-first-device-update", File: "protocols/isis/server/net_ifa_manager.go", Old: "\t\tif ifa.devStatus == nil {\n\t\t\tcontinue\n\t\t}\n", New: "", Expect: "link-state-handle-guarded"},
 			{Name: "refactor-handle-tested-in-place", Silent: true, File: "protocols/isis/server/lsdb.go", Old: "\t\teth := ifa.ethernetInterface\n\t\tif eth == nil {\n\t\t\tcontinue\n\t\t}\n\n\t\tlspdus := l._getLSPWithSSNSet(ifa)\n\t\tfor _, psnp := range packet.NewPSNPs(srcID, lspdus, eth.GetMTU()) {", New: "\t\tif ifa.ethernetInterface != nil {\n\t\t\tfor _, psnp := range packet.NewPSNPs(srcID, l._getLSPWithSSNSet(ifa), ifa.ethernetInterface.GetMTU()) {\n\t\t\t\tifa.sendPSNP(&psnp, l.level())\n\t\t\t}\n\t\t}\n\t\tlspdus := []*packet.LSPEntry{}\n\t\tfor _, psnp := range packet.NewPSNPs(srcID, lspdus, 0) {"},
@@ -142,6 +143,89 @@ func runC33(c *core.Ctx) {
 		hits := core.PathAvoiding(g, assigns, isGo)
 		c.Check(len(hits) == 0, "restart-recreates-consumed", fmt.Sprintf("%s re-creates netIfa.%s (%s) before it starts the routines", start.Name(), fv.Name(), cn.how), cn.pos,
 			"the stop path uses up netIfa."+fv.Name()+" ("+cn.how+") but the start path starts the routines again without a fresh one: after the first link down/up the routines see the old closed channel / stopped ticker — no hello is ever sent again, and the next link down closes the closed channel and panics")
+	}
+
+	// (1b) what stop closes it closes only if start created it since: the close is dominated by `W != nil` for a witness
+	// field W that start sets (to a non-nil value) in the very block that re-creates the channel and that stop resets
+	// to nil — or close and creation sit under the same condition.  (A passive interface never runs that block: an
+	// unconditional close hits the channel of the previous run, or a nil channel, and panics.)
+	for _, cn := range cons {
+		if !strings.HasPrefix(cn.how, "closed in "+stop.Name()) {
+			continue
+		}
+		fv := cn.field
+		// the creation in start and its enclosing block
+		var createStmt ast.Stmt
+		ast.Inspect(start.Decl.Body, func(n ast.Node) bool {
+			as, ok := n.(*ast.AssignStmt)
+			if ok && len(as.Lhs) == 1 && core.FieldOf(start.Pkg, as.Lhs[0]) == fv {
+				createStmt = as
+			}
+			return true
+		})
+		var closeCall *ast.CallExpr
+		ast.Inspect(stop.Decl.Body, func(n ast.Node) bool {
+			if call, ok := n.(*ast.CallExpr); ok && call.Pos() == cn.pos {
+				closeCall = call
+			}
+			return true
+		})
+		if createStmt == nil || closeCall == nil {
+			continue
+		}
+		construct := fmt.Sprintf("%s closes netIfa.%s only if %s created it", stop.Name(), fv.Name(), start.Name())
+		okGuard := core.SameSig(core.GuardSig(start, createStmt), core.GuardSig(stop, closeCall)) && len(core.GuardSig(start, createStmt)) > 0
+		if !okGuard {
+			// witnesses: fields assigned in the same block as the creation
+			var blk *ast.BlockStmt
+			for _, anc := range core.PathTo(start.Decl.Body, createStmt) {
+				if b, ok := anc.(*ast.BlockStmt); ok {
+					blk = b
+				}
+			}
+			wit := map[*types.Var]bool{}
+			if blk != nil {
+				for _, st := range blk.List {
+					if as, ok := st.(*ast.AssignStmt); ok && len(as.Lhs) == 1 && len(as.Rhs) == 1 {
+						if w := core.FieldOf(start.Pkg, as.Lhs[0]); w != nil && w != fv && ownerName(w) == recvType {
+							if id, isId := core.Unparen(as.Rhs[0]).(*ast.Ident); !isId || id.Name != "nil" {
+								wit[w] = true
+							}
+						}
+					}
+				}
+			}
+			// … that stop resets to nil
+			reset := map[*types.Var]bool{}
+			ast.Inspect(stop.Decl.Body, func(n ast.Node) bool {
+				if as, ok := n.(*ast.AssignStmt); ok && len(as.Lhs) == 1 && len(as.Rhs) == 1 {
+					if id, isId := core.Unparen(as.Rhs[0]).(*ast.Ident); isId && id.Name == "nil" {
+						if w := core.FieldOf(stop.Pkg, as.Lhs[0]); w != nil && wit[w] {
+							reset[w] = true
+						}
+					}
+				}
+				return true
+			})
+			for _, ft := range core.FactsAt(stop, closeCall) {
+				be, ok := core.Unparen(ft.Expr).(*ast.BinaryExpr)
+				if !ok {
+					continue
+				}
+				x, y := be.X, be.Y
+				if id, ok := core.Unparen(x).(*ast.Ident); ok && id.Name == "nil" {
+					x, y = y, x
+				}
+				if id, ok := core.Unparen(y).(*ast.Ident); !ok || id.Name != "nil" {
+					continue
+				}
+				if w := core.FieldOf(stop.Pkg, x); w != nil && reset[w] && ((be.Op == token.NEQ && ft.Truth) || (be.Op == token.EQL && !ft.Truth)) {
+					okGuard = true
+				}
+			}
+		}
+		c.Check(okGuard, "restart-recreates-consumed", construct, closeCall.Pos(),
+			"the close is not tied to the creation: it is neither under the condition the channel is created under nor behind a test of a field that the creating block sets and stop resets — on an interface for which start does not create the channel (passive) the second link-down closes the already closed channel and the server panics")
 	}
 
 	// (2) running flag
